@@ -174,3 +174,60 @@ def run_channel(ck, prop, extra_overlay=None):
 
 def c06_release(ck):
     run_channel(ck, "C06")
+
+
+import re
+
+
+def cex_to_schedule(cex_text, opener="A"):
+    """Turn a TLC counterexample of ChannelMC (action labels with arguments in the state headers) into a
+    schedule in ChannelGen's event format."""
+    evs = [dict(a="Cfg", p=opener, x=0, y=0)]
+    for m in re.finditer(r"(?m)^State \d+: <(\w+)(?:\(([^)]*)\))? line", cex_text):
+        act, args = m.group(1), [a.strip().strip('"') for a in (m.group(2) or "").split(",") if a.strip()]
+        if act == "Add":
+            evs.append(dict(a="Add", p=args[0], x=int(args[1]), y=0))
+        elif act == "Resolve":
+            evs.append(dict(a="Resolve", p=args[0], x=int(args[2]), y=1 if args[1] == "settle" else 0))
+        elif act == "UpdateFee":
+            evs.append(dict(a="UpdateFee", p=args[0], x=int(args[1]), y=0))
+        elif act == "Disconnect":
+            evs.append(dict(a="Disconnect", p="A", x=0, y=0))
+        elif act in ("Sign", "Revoke", "RecvAdd", "RecvRes", "RecvSig", "RecvRev", "SendReest", "RecvReest", "RecvFee"):
+            evs.append(dict(a=act, p=args[0], x=0, y=0))
+    return evs
+
+
+def api_level_f1(ck):
+    """C03, API level (Fused = FALSE): peers that sign before they revoke. TLC finds the stale-commit_sig
+    retransmission history (F1); the counterexample is replayed on the real code; if the real code fails
+    at the step the model flags, it is reported under the key of finding F1."""
+    r = ck.model_check(SPEC, "ChannelMC", "mc_c03_api.cfg", "API-level exploration (Fused=FALSE)", must_hold=False,
+                       timeout=1500, workers=min(core.NCPU, 12), name="mc_api")
+    if not r.violation:
+        ck.notes.append("API-level model (Fused=FALSE) satisfies NoError: nothing to replay")
+        return
+    evs = cex_to_schedule(r.cex or "")
+    sd = os.path.join(ck.out, "api_sched")
+    os.makedirs(sd, exist_ok=True)
+    core.write_ndjson(os.path.join(sd, "b_1.ndjson"), evs)
+    res = ck.go_test("./lnwallet/", "^TestVerifChannelExec$", ["lnwallet/channel_exec_test.go"],
+                     env={"VERIF_SCHED": sd, "VERIF_TYPES": "tweakless", "VERIF_SHADOW_EVERY": 1000000}, name="exec_api")
+    trace = os.path.join(res["dir"], "trace.ndjson")
+    recs = core.read_ndjson(trace)
+    v = ck.validate(SPEC, "ChannelTrace", "ChannelTrace_C03api.cfg", trace, name="val_api")
+    last = recs[-1]
+    hist = " ".join("%s(%s)" % (e["a"], e["p"]) for e in evs[1:])
+    if not v["ok"]:
+        ck.violation("C03api:%s:%s" % ((v["invariant"] or "").replace("invariant ", ""), last.get("a")),
+                     "API-level counterexample replay: real code deviates from the model", files={"trace.ndjson": trace},
+                     text=hist + "\n" + (v["cex"] or ""))
+    elif last.get("err"):
+        # the real code fails exactly where the (code-faithful) model says it does: a genuine C03 violation
+        ck.violation("F1:stale-commitsig-retransmission:%s" % last.get("a"),
+                     "API level (peer signs before it revokes): after reload the stored commit_sig is retransmitted and "
+                     "rejected by the honest peer: %s" % last["err"][:200],
+                     files={"trace.ndjson": trace, "schedule.ndjson": os.path.join(sd, "b_1.ndjson")}, text=hist)
+    else:
+        ck.notes.append("API-level counterexample did not reproduce on the real code (model is stricter than the code there)")
+    ck.cov["samples"].append(dict(api_level_counterexample=hist))
